@@ -1172,6 +1172,9 @@ func (s *LoadingStore[K, V]) Get(ctx context.Context, key K) (V, error) {
 		var result setShardResult[K, V]
 		var entryCost int64
 		var entryExpire int64
+		// true only when the value came from the secondary cache: such an entry
+		// need not be written back on eviction, a freshly loaded one must be
+		var fromSecondary bool
 		loaded, err, _ := shard.group.Do(key, func() (Loaded[V], error) {
 			// load and store should be atomic
 			shard.mu.Lock()
@@ -1191,6 +1194,7 @@ func (s *LoadingStore[K, V]) Get(ctx context.Context, key K) (V, error) {
 					result = s.setShardWithoutLock(shard, h, key, vs, cost, expire, true)
 					entryCost = cost
 					entryExpire = expire
+					fromSecondary = true
 					return Loaded[V]{Value: vs}, nil
 				}
 			}
@@ -1214,7 +1218,7 @@ func (s *LoadingStore[K, V]) Get(ctx context.Context, key K) (V, error) {
 			return loaded, err
 		})
 		if result.entry != nil {
-			s.toPolicy(result, shard, h, entryCost, entryExpire, true)
+			s.toPolicy(result, shard, h, entryCost, entryExpire, fromSecondary)
 		}
 		return loaded.Value, err
 	} else {
